@@ -512,31 +512,42 @@ class FlushBufferLoop(LoopSpec):
            f0 still has an entry and cover(f0) was popped => cover(f0) is in remaining_collections;
            a fault at f0 is recorded in `issues`."""
     def prepare(self, L, st):
+        import ast
+        from pyvc.loops import param_name, name_in
         st.ghost["fn_entry"] = st.copy()
+        fi = L.fi
+        # locals by ROLE (robust against renaming): parameters by position; `remaining` is the dict assigned to
+        # cls._buffered_collections after the loop; `issues` is the dict handed to BufferedError
+        L.sk["n_cls"], L.sk["n_force"], L.sk["n_retain"] = param_name(fi, 0), param_name(fi, 1), param_name(fi, 2)
+        L.sk["n_rem"] = name_in(fi, lambda n: n.value.id if isinstance(n, ast.Assign) and isinstance(n.value, ast.Name)
+                                and any(isinstance(t, ast.Attribute) and t.attr == "_buffered_collections" for t in n.targets) else None)
+        L.sk["n_iss"] = name_in(fi, lambda n: n.exc.args[0].id if isinstance(n, ast.Raise) and isinstance(n.exc, ast.Call)
+                                and isinstance(n.exc.func, ast.Name) and n.exc.func.id == "BufferedError"
+                                and n.exc.args and isinstance(n.exc.args[0], ast.Name) else None)
 
     def parts(self, L, st):
         E = st.ghost["fn_entry"]
-        cls = st.loc["cls"]
+        cls = st.loc[L.sk["n_cls"]]
         cn = cls.ci.name
         bE, bS = Buf(L.eng, E, cn), Buf(L.eng, st, cn)
-        forced = flag(st.loc["force"])
-        retain = flag(st.loc["retain_in_force"])
+        forced = flag(st.loc[L.sk["n_force"]])
+        retain = flag(st.loc[L.sk["n_retain"]])
         return E, cn, bE, bS, forced, retain
 
     def havoc(self, L, st):
         for n in list(st.g):
             if n in ("Cell", "View", "CView", "Alloc", "Res", "Wr", "FS", "Meta", "FsTick", "IoFault") or n.startswith("LockDom:"):
                 st.g[n] = smt.fresh(n + "~", st.g[n].sort())
-        cn = st.loc["cls"].ci.name
+        cn = st.loc[L.sk["n_cls"]].ci.name
         st.statics[(cn, "_CURRENT_BUFFER_SIZE")] = Iv(smt.fresh("size~", IntS))
-        for nme in ("remaining_collections", "issues"):
+        for nme in (L.sk["n_rem"], L.sk["n_iss"]):
             old = st.loc[nme]
             st.loc[nme] = Z(smt.fresh(nme + "~"), None, {"fresh_container": True})
 
     def invariant(self, L, st, vis):
         E, cn, bE, bS, forced, retain = self.parts(L, st)
         out = []
-        rem, iss = st.loc["remaining_collections"].term, st.loc["issues"].term
+        rem, iss = st.loc[L.sk["n_rem"]].term, st.loc[L.sk["n_iss"]].term
         T_DICT = z3.IntVal(smt.tid_of("dict"))
         out.append(("locals-are-dicts", z3.And(smt.tyof(rem) == T_DICT, smt.tyof(iss) == T_DICT)))
         out.append(("alloc-monotone", st.g["Alloc"] >= E.g["Alloc"]))
